@@ -47,6 +47,9 @@ def shards(tier, seed):
     for i, s in enumerate(split_seeds(seed * 1000 + 5, n)):
         out.append(("rand", nrand // n, None, s))
     out.append(("suite", 0, None, 0))
+    # long lives of ONE instance (state that accumulates over many calls: caches, counters, growing lists)
+    for s in split_seeds(seed * 1000 + 55, 2 if tier == "quick" else 8):
+        out.append(("soak", 1200 if tier == "quick" else 6000, None, s))
     return out
 
 
@@ -122,6 +125,20 @@ def run_shard(mode, n, firsts, sub_seed):
                             clear_atexit_tmp_handlers()
                         if count == 7:
                             res.sample({"mode": "exhaustive", "ops": [op_shape(o) + ":" + str(o.get("pid")) for o in ops]})
+        elif mode == "soak":
+            rng = random.Random(sub_seed)
+            pids = [f"s{i}" for i in range(10)] + ["s1.v2", "S1"]
+            fmts = [None, "f1", "http://ns/x"]
+            ops = []
+            for _ in range(n):
+                if rng.random() < 0.25:
+                    ops.append(random_meta_op(rng, pids, fmts, list(DOCS)))
+                else:
+                    ops.append(random_object_op(rng, pids, ["A", "B"], kinds=("path", "file", "bytesio")))
+            done = _run_seq(pool, ops, res, pids=pids, fmts=fmts, rng=None)
+            res.evaluations += 1
+            res.count("soak_calls_on_one_instance", done)
+            res.sample({"mode": "soak", "calls": done})
         else:
             rng = random.Random(sub_seed)
             from ..common import STORE_ALGOS
